@@ -55,6 +55,7 @@ type c17 struct {
 
 	// statistics
 	checks, dirsLoaded, brokenSeen, edits, refused, faultedOps, fileReads int
+	mergesReturned, mergeErrors                                           int
 	visitedDag                                                            map[int]int
 }
 
@@ -76,7 +77,7 @@ type action struct {
 
 func (w *c17) nfs() bool { return w.nfsAlloc != nil }
 
-func newC17(r *simrun.Run) *c17 {
+func newC17(r *simrun.Run, c12 bool) *c17 {
 	w := &c17{base: base{r: r, k: r.K, t: r.T, prop: "C17", faulted: map[string]bool{}}, handles: map[string]string{}, visitedDag: map[int]int{}}
 	t := w.t
 	w.clock = simenv.NewSimClock(w.k, startTime)
@@ -89,6 +90,13 @@ func newC17(r *simrun.Run) *c17 {
 	w.allowBroken = allowBroken
 	w.maxOps = 6 + t.Choice(20)
 	w.naive = t.Bool(1, 4)
+	if c12 {
+		// On behalf of C12 only the naive configuration is of interest,
+		// with walks that fail while downloads are in flight.
+		w.c12 = true
+		w.naive = true
+		w.allowBroken, allowBroken = true, true
+	}
 
 	root, ha, nfs, symlinkFactory := newTree(useNFS, w.clock)
 	w.root, w.ha, w.nfsAlloc, w.symlinks = root, ha, nfs, symlinkFactory
@@ -104,7 +112,7 @@ func newC17(r *simrun.Run) *c17 {
 	w.vbd.InstallHooks(w.pool, w.logger)
 	r.Logf("config: naive=%v handles=%s faultFree=%v brokenAllowed=%v directoryCache=%d maxOps=%d", w.naive, map[bool]string{true: "NFS", false: "FUSE"}[useNFS], w.faultFree, allowBroken, cache, w.maxOps)
 
-	w.g = generateDAG(t, w.cas, allowBroken, r.Logf)
+	w.g = generateDAG(t, w.cas, allowBroken, c12, r.Logf)
 	if w.naive {
 		w.setupNaiveShared()
 	}
@@ -393,6 +401,9 @@ func (w *c17) run() {
 			w.actors = append(w.actors, x.actor)
 		}
 	}
+	if w.naive {
+		k.AddSource(w.naiveEvents)
+	}
 	budget := 200 + 100*t.Choice(6)
 	if w.r.Tier == "thorough" {
 		budget *= 2
@@ -544,16 +555,35 @@ func (w *c17) finish() {
 	}
 	r.State(fmt.Sprintf("naive=%v dirs=%d broken=%d actions=%d loaded=%d edits=%d", w.naive, len(w.g.dirs), nbroken, len(w.actions), min(w.dirsLoaded, 8), min(w.edits, 4)))
 	if w.naive {
+		r.Count("naive_merges_returned", w.mergesReturned)
+		r.Count("naive_merges_returned_with_error", w.mergeErrors)
+	}
+	if w.c12 {
+		r.NonTrivial = w.k.MaxParked >= 2 && w.mergeErrors > 0 && w.mergesReturned >= 2
+		return
+	}
+	if w.naive {
 		r.NonTrivial = w.k.MaxParked >= 2 && (w.dirsLoaded >= 2 && w.checks >= 5 || w.brokenSeen > 0 || w.faultedOps > 0)
 		return
 	}
 	r.NonTrivial = w.dirsLoaded >= 2 && w.checks >= 5 && (w.brokenSeen > 0 || w.edits > 0 || w.faultedOps > 0 || w.refused > 0)
 }
 
+// WorldC12 runs the naive input root histories on behalf of C12: when
+// MergeDirectoryContents has returned, nothing of it may still be writing
+// into the action's build directory.
+func WorldC12() simrun.World {
+	return func(r *simrun.Run) {
+		w := newC17(r, true)
+		w.run()
+		w.finish()
+	}
+}
+
 // WorldC17 is the entry point for property C17.
 func WorldC17() simrun.World {
 	return func(r *simrun.Run) {
-		w := newC17(r)
+		w := newC17(r, false)
 		w.run()
 		w.finish()
 	}
